@@ -646,12 +646,17 @@ class VGen(Gen):
             return t
         if tt == "inst" and c < 0.2 and t["cls"]["kind"] == 1 and t["names"]:
             # a dataclass instance one of whose declared fields holds no value
-            t = copy.deepcopy(t)
-            i = r.randrange(len(t["names"]))
-            t["names"].pop(i)
-            t["vals"].pop(i)
-            t["oid"] = self.oid()
-            return t
+            # (only a field without a default: a defaulted field's name is also a class attribute, so deleting the
+            # instance attribute leaves `getattr` answering while `__dict__` has no entry)
+            nodefault = {f[0] for f in self.class_fields(t["cls"]) if f[1] is None}
+            cand = [i for i, n in enumerate(t["names"]) if n in nodefault]
+            if cand:
+                t = copy.deepcopy(t)
+                i = r.choice(cand)
+                t["names"].pop(i)
+                t["vals"].pop(i)
+                t["oid"] = self.oid()
+                return t
         if tt == "inst" and c < 0.5 and t["cls"]["kind"] in (1, 2):
             # same fields, different class
             c2 = self.new_class(t["cls"]["kind"], fields=[[n, None] for n in t["names"]])
